@@ -18,6 +18,7 @@ the mesh size first), ported in Model/TrimeshInside.lean — helper lemmas in Le
 import MagpyVerif.Lemmas.KernReal
 import MagpyVerif.Lemmas.KernAlgebra
 import MagpyVerif.Lemmas.KernCylinder
+import MagpyVerif.Lemmas.CylinderBatchScale
 import MagpyVerif.Lemmas.TrimeshInside
 import MagpyVerif.Lemmas.KernelLiterals
 import MagpyVerif.Props.C15
@@ -348,6 +349,21 @@ example : bhjmCylinder 200 .B (1000 * 2, 1000 * 3) ⟨1, 2, 3⟩ (vs 1000 (⟨3,
   cylinder_scale_invariant 1000 (by norm_num) 200 .B 2 3 _ _
 example : bhjmCylinder 200 .J (2, 2) ⟨1, 2, 3⟩ (⟨0, 0, 0⟩ : V3 ℝ) = some ⟨1, 2, 3⟩ := by
   simp [bhjmCylinder, bhjmCylinderRow, cylMasks, n]
+/-- C12 (Cylinder, the BATCH as coded — Model/CylinderBatch.lean, `cylbatch` rows of the kern stream): multiplying diameter, height
+and observer of EVERY row of a call by the same `l > 0` leaves the whole result unchanged, with `cel` the real dispatcher (`cel0` per
+entry below 10 entries, the masked array routine `celv` from 10 on; no longer an opaque function): the rows' dimensionless
+coordinates are the same numbers, so the masks, the sub-batches `cel` is called on, their sizes — hence the routine `cel` takes —
+and all its arguments are the same at every scale.  `none` at one scale iff at the other -/
+theorem cylinder_batch_scale_invariant (l : ℝ) (hl : 0 < l) (fuel : Nat) (f : Field) (rows : List (CylRow ℝ)) :
+    bhjmCylinderBatch (celDispatch fuel) fuel f (rows.map (cylRowScale l)) =
+      bhjmCylinderBatch (celDispatch fuel) fuel f rows :=
+  bhjmCylinderBatch_scale l hl fuel f rows
+
+-- non-vacuity: twelve rows (array path of `cel`), millimetres vs metres
+example : bhjmCylinderBatch (celDispatch 200) 200 .B ((List.replicate 12 exCylRow).map (cylRowScale 1000)) =
+    bhjmCylinderBatch (celDispatch 200) 200 .B (List.replicate 12 exCylRow) :=
+  cylinder_batch_scale_invariant 1000 (by norm_num) 200 .B _
+
 /-! ### TriangularMesh: bounding-box pre-filter, ray test, inside test, facet-orientation seed test -/
 
 /-- C12 (`mask_inside_enclosing_box`): the bounding-box pre-filter of the TriangularMesh inside test selects the same
